@@ -481,6 +481,79 @@ func c18PrivateOps() []func(g int, k int) string {
 	}
 }
 
+// c18PrivateScalarOps: tensor-scalar operations on private tensors (one element and a few elements) in every option mode and with
+// the scalar on either side. These are the calls that wrap a Go scalar in pooled scratch metadata for the duration of the call;
+// each goroutine uses its own tensors and its own scalar, so every digest must equal the digest of the same call made alone.
+type c18ScalOp struct {
+	name string
+	run  func(g, k int) string
+}
+
+func c18PrivateScalarOps() []c18ScalOp {
+	type binf func(a, b interface{}, opts ...tensor.FuncOpt) (tensor.Tensor, error)
+	fns := []struct {
+		name  string
+		f     binf
+		arith bool
+	}{
+		{"Add", tensor.Add, true}, {"Sub", tensor.Sub, true}, {"Mul", tensor.Mul, true}, {"Div", tensor.Div, true},
+		{"Lt", tensor.Lt, false}, {"Gte", tensor.Gte, false}, {"ElEq", tensor.ElEq, false},
+		{"MinBetween", tensor.MinBetween, true}, {"MaxBetween", tensor.MaxBetween, true},
+	}
+	mk := func(g, k int, shape []int) *tensor.Dense {
+		n := model.Size(shape)
+		b := make([]float64, n)
+		for i := range b {
+			b[i] = float64(g*50 + k*3 + i + 1)
+		}
+		return tensor.New(tensor.WithShape(shape...), tensor.WithBacking(b))
+	}
+	var out []c18ScalOp
+	for _, fn := range fns {
+		for _, mode := range []string{"safe", "unsafe", "reuse", "incr", "same"} {
+			if !fn.arith && (mode == "incr" || mode == "reuse") {
+				continue // comparisons into a float destination need AsSameType; covered by "same"
+			}
+			if fn.arith && mode == "same" {
+				continue
+			}
+			if (fn.name == "MinBetween" || fn.name == "MaxBetween") && mode == "incr" {
+				continue
+			}
+			for _, left := range []bool{true, false} {
+				for _, shape := range [][]int{{1}, {1, 1}, {3}, {2, 2}} {
+					fn, mode, left, shape := fn, mode, left, shape
+					name := fmt.Sprintf("%s/%s/left=%v/%s", fn.name, mode, left, shapeStr(shape))
+					out = append(out, c18ScalOp{name, func(g, k int) string {
+						a := mk(g, k, shape)
+						sc := float64(g*50 + k*3 + 2)
+						var opts []tensor.FuncOpt
+						switch mode {
+						case "unsafe":
+							opts = append(opts, tensor.UseUnsafe())
+						case "reuse":
+							opts = append(opts, tensor.WithReuse(mk(g, k+9, shape)))
+						case "incr":
+							opts = append(opts, tensor.WithIncr(mk(g, k+9, shape)))
+						case "same":
+							opts = append(opts, tensor.AsSameType())
+						}
+						var r tensor.Tensor
+						var err error
+						if left {
+							r, err = fn.f(a, sc, opts...)
+						} else {
+							r, err = fn.f(sc, a, opts...)
+						}
+						return digestTensor(r, err) + "|" + digestTensor(a, nil)
+					}})
+				}
+			}
+		}
+	}
+	return out
+}
+
 // ---- the run ----
 
 type c18Step struct {
@@ -505,6 +578,7 @@ func c18Run(c *core.Ctx, G, P int) {
 		by[s.name] = s
 	}
 	readOps, prodOps, privOps := c18ReadOps(), c18ProdOps(), c18PrivateOps()
+	scalOps := c18PrivateScalarOps()
 
 	// programs: every goroutine gets every (op, shared tensor) pair, every product op, and private ops, in its own order
 	programs := make([][]c18Step, G)
@@ -535,6 +609,10 @@ func c18Run(c *core.Ctx, G, P int) {
 				po, i, k := po, i, k
 				steps = append(steps, c18Step{fmt.Sprintf("private#%d", i), func(e *c18Env) string { return po(e.g, k) }})
 			}
+		}
+		for i, po := range scalOps {
+			po, i := po, i
+			steps = append(steps, c18Step{"private-scalar/" + po.name, func(e *c18Env) string { return po.run(e.g, i%5) }})
 		}
 		rng.Shuffle(len(steps), func(i, j int) { steps[i], steps[j] = steps[j], steps[i] })
 		programs[g] = steps
